@@ -287,7 +287,6 @@ func childMain(jobPath string) int {
 			fmt.Fprintln(os.Stderr, "c09 child:", err)
 			return 3
 		}
-		script.set(st.Answer, rrs)
 		post := &Rec{Step: i, Phase: "post"}
 		func() {
 			defer func() {
@@ -295,12 +294,33 @@ func childMain(jobPath string) int {
 					post.Panic = fmt.Sprint(p)
 				}
 			}()
-			r1 := resolver.NewResolver(configFor(h, keys, st, job.Dir, addr, job.NetMilli))
 			if job.LockOS {
 				runtime.LockOSThread()
 				defer runtime.UnlockOSThread()
 			}
-			r1.AutoTA()
+			var r1 *resolver.Resolver
+			for attempt := 1; ; attempt++ {
+				post.Attempts = attempt
+				script.set(st.Answer, rrs)
+				r1 = resolver.NewResolver(configFor(h, keys, st, job.Dir, addr, job.NetMilli))
+				r0 := resolver.VerifC09RefreshResults()
+				r1.AutoTA()
+				post.Result = ""
+				for k, v := range resolver.VerifC09RefreshResults() {
+					if v > r0[k] {
+						post.Result = k
+					}
+				}
+				// The root scripted a real answer but the resolver reports that the
+				// FETCH failed (lost datagram, timeout on a loaded box): AutoTA
+				// returned before judging or writing anything, so this was not the
+				// refresh under test. Start the process' refresh again.
+				transport := post.Result == "query_error" || post.Result == "timeout" || post.Result == "work_budget"
+				if st.Answer == "" && transport && attempt < 4 {
+					continue
+				}
+				break
+			}
 			rk, nn := r1.VerifC09RootKeys()
 			post.Live, post.LiveNil = ix.obsRRs(rk), !nn
 			post.HasTA = r1.VerifC09HasTrustAnchors()
